@@ -194,6 +194,54 @@ def make_nn(name, consts):
     return Unit(name, fns, "contracts/nn.h", "lemmas/nn.c", stubs=["stubs/backend.h"])
 
 
+# ---------------------------------------------------------------- binary_io
+BINIO = CORE + "utility/binary_io.hpp"
+IO_SUBST = [
+    (r"\bfs\s*\.\s*read\s*\(", "istream_read(fs, ", 0, True),
+    (r"\bfs\s*\.\s*write\s*\(", "ostream_write(fs, ", 0, True),
+    (r"\bfs\s*\.\s*good\s*\(\s*\)", "istream_good(fs)", 0, True),
+    (r"\bfs\s*\.\s*eof\s*\(\s*\)", "istream_eof(fs)", 0, True),
+    (r"\bfs\s*\.\s*fail\s*\(\s*\)", "istream_fail(fs)", 0, True),
+    (r"\bfs\s*\.\s*bad\s*\(\s*\)", "istream_bad(fs)", 0, True),
+    (r"!\s*fs\b(?!\s*[.(\-])", "istream_fail(fs)", 0, True),
+    (r"\bMAGIC_HEADER\b", "verif_magic_header_obj", 0, True),
+    (r"\bMAGIC_FOOTER\b", "verif_magic_footer_obj", 0, True),
+    (r"\b(?:utility::)?read_binary\s*<\s*uint32_t\s*>\s*\(", "read_binary_u32(", 0, True),
+    (r"\b(?:utility::)?read_binary\s*<\s*float\s*>\s*\(", "read_binary_f32(", 0, True),
+    (r"\b(?:utility::)?read_binary\s*<\s*double\s*>\s*\(", "read_binary_f64(", 0, True),
+    (r"\b(?:utility::)?read_io_header\s*\(", "read_io_header(", 0, True),
+    (r"\b(?:utility::)?read_io_footer\s*\(", "read_io_footer(", 0, True),
+    (r"\b(?:utility::)?write_io_header\s*\(", "write_io_header(", 0, True),
+    (r"\b(?:utility::)?write_io_footer\s*\(", "write_io_footer(", 0, True),
+    (r"\bconst\s+char\s*\*", "const char *", 0, True),
+]
+MAY_THROW = ["read_binary_u32", "read_binary_u64", "read_binary_f32", "read_binary_f64", "read_io_header", "read_io_footer",
+             "read_binary_ndsize", "read_binary_invec", "read_binary_outvec", "read_binary_affine", "backend_read_binary"]
+
+
+def fn_read_binary(key, ctype):
+    return Fn(key, BINIO, ["namespace covfie::utility"], "read_binary", ret=ctype, ptypes=["VERIF_ISTREAM *"],
+              subst=[("T", ctype, 1)] + IO_SUBST,
+              drop=[r"(?s)static_assert\s*\(.*?\)\s*;"],
+              throws=True, dummy_ret="rv", must={"R1_cast": 1})
+
+
+def binio_fns():
+    fns = [fn_read_binary("read_binary_u32", "uint32_t"), fn_read_binary("read_binary_u64", "uint64_t"),
+           fn_read_binary("read_binary_f32", "float"), fn_read_binary("read_binary_f64", "double")]
+    for nm, st in (("write_io_header", "VERIF_OSTREAM *"), ("write_io_footer", "VERIF_OSTREAM *")):
+        fns.append(Fn(nm, BINIO, ["namespace covfie::utility"], nm, ret=st, ptypes=[st, "uint32_t"], subst=IO_SUBST,
+                      must={"R1_cast": 2}))
+    for nm in ("read_io_header", "read_io_footer"):
+        fns.append(Fn(nm, BINIO, ["namespace covfie::utility"], nm, ret="VERIF_ISTREAM *", ptypes=["VERIF_ISTREAM *", "uint32_t"],
+                      subst=IO_SUBST, throws=True, propagate=MAY_THROW, dummy_ret="fs", must={"R9_throw": 2, "R14_propagate": 2}))
+    return fns
+
+
+def make_binio(name, consts):
+    return Unit(name, binio_fns(), "contracts/binary_io.h", "lemmas/binary_io.c")
+
+
 def get_unit(name, consts=None):
     """name is 'base' or 'base@k=v,k=v' for units whose extraction depends on template arguments."""
     if name in UNITS:
@@ -211,3 +259,4 @@ FACTORIES["array_at"] = make_array_at
 FACTORIES["clamp"] = make_clamp
 FACTORIES["backup"] = make_backup
 FACTORIES["nn"] = make_nn
+FACTORIES["binary_io"] = make_binio
